@@ -308,6 +308,14 @@ class VSet(Value):
         self.kind = KSet(elem)
 
 
+class VSetv(Value):
+    """a pure (mathematical) set of ints: characteristic array (Array Int Bool); spec level only"""
+    kind = KPrim("setv", "(Array Int Bool)")
+
+    def __init__(self, t: T):
+        self.t = t
+
+
 class VDict(Value):
     def __init__(self, t: T, k: Kind, v: Kind):
         self.t = t
